@@ -171,6 +171,8 @@ def expmv(f, v, t=1., tol=1e-12, ncv=10, hermitian=False, normalize=False, retur
     info['ncv'] = ncv
     if not normalize:
         v = normv * v
+    elif t_out > 0:
+        v = v / v.norm()  # norm was tracked through Krylov amplitudes, assuming orthonormal Krylov vectors; fix rounding errors
     return (v, info) if return_info else v
 
 
